@@ -7,10 +7,12 @@ from batchie import retrospective as R
 from batchie.models.sparse_combo import SparseDrugComboMCMCSample
 from harness.util import outcome, bits, Interner
 
-SAMPLE_POOLS = [["", "A", "a", "é"], ["HT-29", "MCF7", "mcf7-long-name", "中"], ["s0", "s1", "s10", "s2"]]
-TREAT_POOLS = [["", "A", "a", "zz"], ["5-FU", "Drug B", "drug", "é́"], ["d0", "d1", "d2", "d3"]]
-PLATE_POOLS = [["", "P", "p1", "p10"], ["plate 0", "plate 1", "plate 2", "plate-é"], ["0", "1", "2", "3"]]
-DOSE_POOLS = [{0: -1.0, 1: 0.0, 2: 1.0, 3: 2.5}, {0: -5e-324, 1: -0.0, 2: 5e-324, 3: 1e-3}, {0: -2.0, 1: 0.0, 2: 0.1, 3: 1e300}]
+# (pool 3: names and doses whose textual concatenations coincide - "d1" + "11.0" = "d11" + "1.0" - and names that are prefixes of each other)
+SAMPLE_POOLS = [["", "A", "a", "é"], ["HT-29", "MCF7", "mcf7-long-name", "中"], ["s0", "s1", "s10", "s2"], ["s1", "s11", "s", "s1.0"]]
+TREAT_POOLS = [["", "A", "a", "zz"], ["5-FU", "Drug B", "drug", "é́"], ["d0", "d1", "d2", "d3"], ["d1", "d11", "d", "d1.0"]]
+PLATE_POOLS = [["", "P", "p1", "p10"], ["plate 0", "plate 1", "plate 2", "plate-é"], ["0", "1", "2", "3"], ["p1", "p11", "p", "1"]]
+DOSE_POOLS = [{0: -1.0, 1: 0.0, 2: 1.0, 3: 2.5}, {0: -5e-324, 1: -0.0, 2: 5e-324, 3: 1e-3}, {0: -2.0, 1: 0.0, 2: 0.1, 3: 1e300},
+              {0: -1.0, 1: 0.0, 2: 1.0, 3: 11.0}]
 NEWVAL = 900
 ABSENT_CTL = "￿-no-control"
 
@@ -22,7 +24,7 @@ class Fixture:
         self.rows, self.obs, self.ctl, self.fn, self.fd = rows, list(obs), ctl, fn, fd
         self.zero, self.nan, self.name = list(zero), list(nan), name
         self.arity = len(rows[0][1])
-        self.sp, self.tp, self.pp, self.dp = SAMPLE_POOLS[pools % 3], TREAT_POOLS[pools % 3], PLATE_POOLS[pools % 3], DOSE_POOLS[pools % 3]
+        self.sp, self.tp, self.pp, self.dp = SAMPLE_POOLS[pools % 4], TREAT_POOLS[pools % 4], PLATE_POOLS[pools % 4], DOSE_POOLS[pools % 4]
         self.ctl_name = self.tp[ctl] if ctl < len(self.tp) else ABSENT_CTL
         self.valtok = Interner()
         self.vals = {}
@@ -369,7 +371,7 @@ def fixtures(rnd, n_random):
         # whole unobserved plates go to the hold-out (fraction 1): the training screen loses samples and conditions
         Fixture([(0, [c(0, 2), c(3, 2)], 0, 1), (1, [c(1, 2), c(0, 2)], 0, 2), (2, [c(2, 2), c(1, 3)], 1, 3), (3, [c(2, 3), c(3, 2)], 2, 4),
                  (0, [c(0, 3), c(1, 2)], 3, 5)],
-                obs=[0, 3], ctl=3, fn=1, fd=1, pools=2, name="fraction-one"),
+                obs=[0, 3], ctl=3, fn=1, fd=1, pools=3, name="fraction-one"),
         # nothing observed, fraction 0... (no split possible), duplicates of a condition, control in both columns
         Fixture([(0, [c(0, 2), c(0, 2)], 0, 1), (0, [c(0, 2), c(0, 2)], 1, 2), (1, [c(3, 2), c(3, 1)], 1, 3), (1, [c(1, 0), c(2, 2)], 0, 4)],
                 obs=[], ctl=3, fn=1, fd=2, pools=1, name="duplicates-and-controls"),
